@@ -254,6 +254,9 @@ class Model:
         self.error: T.Optional[R.RefError] = None
         self.calls: T.List[CallRec] = []
         self.variables: T.Dict[str, T.Any] = {}
+        # opaque target IDs -> (build file, target name), as the real `meson introspect --targets` reported them for
+        # this project ("id" / "defined_in" / "name"); filled in by the driver, empty when nobody asked
+        self.target_ids: T.Dict[str, T.Tuple[str, str]] = {}
         for f, text in self.files.items():
             try:
                 self.trees[f] = R.parse(text)
@@ -302,6 +305,9 @@ class Model:
         return None
 
     def find_target(self, ident: str) -> T.List[CallRec]:
+        if ident in self.target_ids:
+            f, nm = self.target_ids[ident]
+            return [c for c in self.targets() if c.file == f and c.name == nm]
         byname = [c for c in self.targets() if c.name == ident]
         if byname:
             return byname
